@@ -19,13 +19,14 @@ import (
 )
 
 type HarnessSpec struct {
-	Dir      string
-	Name     string
-	Tweak    func(cfg *sym.HarnessCfg, tier string)
-	Reach    []string // labels that must be witnessed (non-vacuity)
-	Tiers    string   // "" = both, "thorough" = thorough only, "quick" = quick only (superseded by a larger thorough variant)
-	Variant  string
-	AfterSat string
+	Dir        string
+	Name       string
+	Tweak      func(cfg *sym.HarnessCfg, tier string)
+	Reach      []string // labels that must be witnessed (non-vacuity)
+	PanicsOnly bool     // count only panics / allocation / bound obligations (harness shared with another property)
+	Tiers      string   // "" = both, "thorough" = thorough only, "quick" = quick only (superseded by a larger thorough variant)
+	Variant    string
+	AfterSat   string
 }
 
 type PropSpec struct {
@@ -422,6 +423,11 @@ func cmdCheck(args []string) int {
 		for _, o := range res.Obls {
 			switch o.Verdict {
 			case "sat":
+				if hs.PanicsOnly && o.Kind == "assert" && !strings.HasPrefix(o.Label, "alloc:") {
+					// a harness borrowed from another property: only run-time panics, allocation sizes
+					// and unwinding bounds count here, its functional assertions belong to that property
+					continue
+				}
 				if _, ok := byLabel[o.Label]; !ok {
 					labels = append(labels, o.Label)
 				}
